@@ -630,3 +630,58 @@ def king_guarded_piece_positions():
                 grid = {K: "K" if stm == "w" else "k", E: "k" if stm == "w" else "K", (tf, tr): "n" if stm == "w" else "N"}
                 out.append(fen_of_grid(grid, stm=stm))
     return out
+
+
+def extra_rook_positions():
+    """a side that still holds a castling right, its home rook unmoved, and a SECOND rook of that side off its home
+    square on the same a/h file (also one on the same back rank): moving the second rook must keep the right"""
+    out = []
+    for stm in "wb":
+        home = 0 if stm == "w" else 7
+        K, R = ("K", "R") if stm == "w" else ("k", "r")
+        ok, orr = ("k", "r") if stm == "w" else ("K", "R")
+        ohome = 7 - home
+        for side, cf in (("q", 0), ("k", 7)):
+            for er in (2, 3, 4, 5):
+                grid = {(4, home): K, (cf, home): R, (cf, er if stm == "w" else 7 - er): R, (4, ohome): ok, (0, ohome): orr, (7, ohome): orr}
+                right = side.upper() if stm == "w" else side
+                others = "kq" if stm == "w" else "KQ"
+                rights = "".join(sorted(right + others, key="KQkq".index))
+                out.append(fen_of_grid(grid, stm=stm, rights=rights))
+            # second rook on the back rank next to the king's path but not between king and rook
+            grid = {(4, home): K, (cf, home): R, (7 - cf, home): R, (3 if cf == 7 else 5, 3): R, (4, ohome): ok}
+            out.append(fen_of_grid(grid, stm=stm, rights=(side.upper() if stm == "w" else side)))
+    return out
+
+
+def ep_via_moves(fens):
+    """for positions with an en-passant target: the position one ply earlier and the double step as a move, so that
+    the target is recorded by the text-move applier instead of the FEN loader"""
+    out = []
+    for f in fens:
+        parts = f.split(" ")
+        if len(parts) < 4 or parts[3] == "-":
+            continue
+        ef = "abcdefgh".index(parts[3][0])
+        er = int(parts[3][1]) - 1
+        grid = {}
+        for ri, row in enumerate(parts[0].split("/")):
+            fi = 0
+            for ch in row:
+                if ch.isdigit():
+                    fi += int(ch)
+                else:
+                    grid[(fi, 7 - ri)] = ch
+                    fi += 1
+        if parts[1] == "w":          # black has just played ef7-ef5
+            frm, to, pawn, mover = (ef, 6), (ef, 4), "p", "b"
+        else:
+            frm, to, pawn, mover = (ef, 1), (ef, 3), "P", "w"
+        if grid.get(to) != pawn or frm in grid or (ef, er) in grid:
+            continue
+        del grid[to]
+        grid[frm] = pawn
+        prev = fen_of_grid(grid, stm=mover, rights=parts[2])
+        out.append("position fen %s moves %s%s" % (prev, sqname(*frm), sqname(*to)))
+    legal = set(f for f, _, _ in filter_legal([c.split(" moves ")[0][len("position fen "):] for c in out]))
+    return [c for c in out if c.split(" moves ")[0][len("position fen "):] in legal]
